@@ -468,6 +468,11 @@ def run(chk):
             ok = r[0] == "return" and isinstance(r[1], tuple) and len(built) == 1 and r[1][0] is built[0] and isinstance(r[1][1], MIDPool)
             clauses = sorted(tuple(x) for x in (built[0].bootstrap.clauses if ok and isinstance(built[0].bootstrap, MCNF) else []))
             f, v = getattr(fake_cnf, "out", (None, None))
+            if v is None:
+                # construct_solver does not get its formula from `cnf` (it encodes through other code of the package): the stand-in was
+                # never asked, this rule has nothing to compare - C01.P (the pipeline evaluated end to end) decides
+                chk.note(f"C01.A.solver-gets-formula abstains ({case}): construct_solver does not call cnf(); decided end to end by C01.P")
+                continue
             want = [(9, -9)] + ([(v._ids["a"],), (-v._ids["g"],)] if asm else [])
             ok = ok and clauses == sorted(want)
             chk.ob("C01.A.solver-gets-formula", f"construct_solver::{case}", ok, file=FILE, func="construct_solver", line=fcs.node.lineno,
